@@ -799,3 +799,25 @@ pub fn fill_screen(cols: usize, rows: usize, continuous: bool) -> String {
     }
     s
 }
+
+/// screen filler with three modes: 0 = continuous run (rows soft-wrapped), 1 = each row
+/// addressed separately and filled completely, 2 = sparse: even rows carry text in their
+/// left half only, odd rows stay blank (default cells) — content-dependent shortcuts
+/// ("this row / the rest of this row is blank") only show on such screens
+pub fn fill_screen_mode(cols: usize, rows: usize, mode: usize) -> String {
+    match mode {
+        0 => fill_screen(cols, rows, true),
+        1 => fill_screen(cols, rows, false),
+        _ => {
+            let mut s = String::new();
+            let ch = |r: usize, c: usize| (b'a' + ((r * 5 + c) % 26) as u8) as char;
+            for r in (0..rows).step_by(2) {
+                s.push_str(&format!("\x1b[{};1H", r + 1));
+                for c in 0..(cols / 2).max(1).min(cols) {
+                    s.push(ch(r, c));
+                }
+            }
+            s
+        }
+    }
+}
